@@ -4,15 +4,21 @@ NOT_YET = {}
 
 CLAIMS = {
     "C01": ("proof",
-            "Lean 4: stage theorems of the decode round trip for every matrix/version (format words distinct, unmask = mask "
-            "twice, placement order = ISO read-out order with every encoding-region cell once, block layout = Table 9); the "
-            "composed statement C01_statement is stated but not yet proved (partial). On every run the regenerated tables "
-            "re-check these theorems, and the ISO reference decoder written in Lean (Spec.Decode: format read-out, unmask, "
-            "zig-zag read-out, de-interleave, strict one-segment parse) is run on the real builder's matrix for every "
-            "(version, level) cell and must return exactly the input bytes.",
-            "Partial proof + differential correspondence. Trusted: Lean kernel; native_decide for the closed checkers "
-            "sweepOk/scanOk/templateOk; hand model tied by correspondence; Spec.Decode as my reading of ISO 18004.",
-            "Lean 4 stage theorems (symbolic + tier K/N finite checks on regenerated tables) + reference decoder in Lean run on real symbols"),
+            "Lean 4: C01_roundtrip (proved, no sorry) — for EVERY input byte string and EVERY legal option set (level, mode, "
+            "version, mask forced or automatic), whenever the model of QRBuilder::build returns a symbol, the ISO reference "
+            "decoding procedure written independently in Lean (Spec.Decode.decode: size -> version, first format copy -> "
+            "(level, mask) by exact match, un-mask, zig-zag read-out, cut into codewords, Table 9 de-interleave, strict "
+            "single-segment parse incl. terminator and pad codewords) succeeds on it and returns exactly (reported mode, input "
+            "bytes) and the reported level / mask / version. Composed from: format read-back, un-masking (C08), placement "
+            "read-back (k-th read-out cell holds bit k; every cell once), bit->codeword cutting, structure()'s data part and "
+            "Table 9 de-interleaving, C06 (buffer = ISO data codewords) and 'strict parser inverts the ISO encoder'. "
+            "C10_total shows build never traps, so the statement is not vacuous. On every run the regenerated tables re-check "
+            "the theorems, and the reference decoder is also run on the REAL builder's matrix for every (version, level) "
+            "cell (differential correspondence of model and code cell by cell) and must return the input bytes.",
+            "Trusted: Lean kernel (+ propext, Classical.choice, Quot.sound); native_decide for the closed checkers "
+            "templateOk/scanOk/sweepOk/formatPosOk/interleaveOk/deintOk over the regenerated tables; hand model tied by "
+            "correspondence; Spec.Decode as my reading of ISO 18004 clause 11 (no error correction: exact agreement).",
+            "Lean 4 theorem C01_roundtrip (symbolic, all inputs; tier K/N finite checks on regenerated tables) + reference decoder in Lean run on real symbols"),
     "C02": ('proof',
             "Lean 4: C02_layout (ecc_to_groups = ISO Table 9, generator degree, codeword sums; decide +kernel over all 160 regenerated rows), C02_syndromes — for every version, level and EVERY content of a Table 9-sized block, data ++ EC (as computed by the model of division with the crate's generator) has all-zero syndromes at alpha^0..alpha^(ec-1): table product = field product, division loop = schoolbook remainder, remainder modulo prod(x - alpha^i) vanishes at the roots (field laws derived from the shift-and-xor definition). Spec verdict on every real symbol: Table 9 split, zero remainder bits, all syndromes zero. The recovery corollary is cited (BCH bound), not proved.",
             'Trusted: Lean kernel (+ propext, Classical.choice, Quot.sound); table translator; ISO Table 9 transcription. Interleaving order = ISO order: tier N checker interleaveOk.',
